@@ -86,3 +86,49 @@ func Tx(t *rapid.T, o TxOpts) ref.Tx {
 	}
 	return m
 }
+
+// HugeSizes are the script lengths of the low-weight "one very long script" class: around the
+// 3- and 5-byte varint boundaries and around 128 KiB, 256 KiB, 512 KiB and 1 MiB, where buffered
+// or chunked implementations change path.
+var HugeSizes = []int{65535, 65536, 70000, 131071, 131072, 131073, 200000, 262143, 262144, 262145, 300000, 524288, 524289, 1 << 20, 1<<20 + 1}
+
+// HugeField replaces ONE script of the model - the recorded previous script or the unlocking
+// script of any input, or the locking script of any output, at any position - by a very long one.
+// Sizes above 256 KiB are drawn for one such case in four.
+func HugeField(t *rapid.T, m *ref.Tx) string {
+	sizes := HugeSizes[:9]
+	if rapid.IntRange(0, 3).Draw(t, "huge_xl") == 0 {
+		sizes = HugeSizes[9:]
+	}
+	n := rapid.SampledFrom(sizes).Draw(t, "huge_len")
+	kind := rapid.IntRange(0, 3).Draw(t, "huge_field")
+	if len(m.Out) == 0 && kind >= 2 {
+		kind = 0
+	}
+	if len(m.In) == 0 {
+		if len(m.Out) == 0 {
+			return ""
+		}
+		kind = 2
+	}
+	switch kind {
+	case 0:
+		i := rapid.IntRange(0, len(m.In)-1).Draw(t, "huge_at")
+		if m.In[i].PrevNil {
+			return ""
+		}
+		m.In[i].PrevScript = FillBytes(t, n, "huge_script")
+		return "huge=prevscript"
+	case 1:
+		i := rapid.IntRange(0, len(m.In)-1).Draw(t, "huge_at")
+		m.In[i].Unlock, m.In[i].UnlockNil = FillBytes(t, n, "huge_script"), false
+		return "huge=unlock"
+	default:
+		i := rapid.IntRange(0, len(m.Out)-1).Draw(t, "huge_at")
+		m.Out[i].Script = FillBytes(t, n, "huge_script")
+		if i > 0 {
+			return "huge=output-not-first"
+		}
+		return "huge=output-first"
+	}
+}
